@@ -77,7 +77,24 @@ ADVERSARIAL = [
     "{ me { ...F @include(if: false) ... on Person { ...F } } } fragment F on Person { name strict }",
     "{ me { ...A ...B } } fragment A on Person { ...F @skip(if: true) } fragment B on Person { ...F } fragment F on Person { age }",
     "{ people { ...F @skip(if: true) } me { ...F } } fragment F on Person { name }",
+    # three fields under one response name where the conflicting pair does not include the first occurrence (directly, in sub-selections, across type conditions)
+    "{ me { friends { name } friends { n: name } friends { n: age } } }",
+    "{ me { friends { name } friends { n: age } friends { n: name } } }",
+    "{ pet { ... on Dog { x: name } ... on Cat { x: name } ... on Cat { x: lives } } }",
+    "{ me { a: name a: name a: age } people { best { __typename } best { ... on Dog { v: name } } best { ... on Dog { v: barks } } } }",
+    # meta fields of the query root selected on other roots
+    "mutation { a(n: 1) __schema { queryType { name } } }",
+    "mutation { meta: __type(name: \"Query\") { kind } }",
+    "subscription { __schema { queryType { name } } }",
+    "mutation { __typename b { __typename name } }",
 ]
+
+
+def adversarial():
+    """ADVERSARIAL plus every single-rule violation and every order-sensitive valid document of the C06 corpus: whatever validate_ast says about
+    them, an accepted one must execute (imported lazily: c06 imports this module)"""
+    from vf.props import c06 as _c06
+    return list(dict.fromkeys(ADVERSARIAL + [t for _r, t in _c06.LABELLED] + list(_c06.VALID_TRICKY)))
 
 
 def mutations(text, rnd, pool_names):
@@ -183,7 +200,7 @@ def check(tier, seed):
     run = Run("C05", tier, seed)
     rnd = random.Random(seed)
     schema = H.make_schema()
-    texts = list(ADVERSARIAL)
+    texts = adversarial()
     gen, _rej = gen_ops.generate(schema, 400 if tier == "thorough" else 120, seed + 1)
     from py_gql.schema import InputObjectType, InterfaceType, ObjectType
     names = sorted({f.name for t in schema.types.values() if isinstance(t, (ObjectType, InterfaceType, InputObjectType)) and
@@ -194,7 +211,7 @@ def check(tier, seed):
     for text, _v in H.OPERATIONS:
         texts.append(text)
         texts += mutations(text, rnd, names)
-    for t in ADVERSARIAL:
+    for t in adversarial():
         texts += mutations(t, rnd, names)
     # syntactically valid executable documents over arbitrary names (derivation corpus)
     for entry, toks in gen_docs.corpus(tier, seed):
@@ -216,7 +233,7 @@ def check(tier, seed):
     run.cov["evaluations"] = n
     run.cov["distinct_nontrivial"] = valid
     run.cov["rule"] = "%d hand-written adversarial documents, generated valid operations and single-token mutations of all of them that still parse, plus the " \
-                      "derivation corpus over arbitrary names; non-trivial = documents validate_ast accepts (then executed)" % len(ADVERSARIAL)
+                      "derivation corpus over arbitrary names; non-trivial = documents validate_ast accepts (then executed)" % len(adversarial())
     run.cov["bounded_functions"].append({"functions": ["validate_ast", "default_validator", "all rule visitors", "TypeInfoVisitor", "VariablesCollector",
                                                        "overlapping_fields_can_be_merged.*"], "bound": "%d parseable documents (%d accepted and executed)" % (n, valid)})
     run.sample({"document": ADVERSARIAL[1], "contract": "validate_ast returns its error list without raising; if empty, execution == reference"})
